@@ -95,25 +95,34 @@ class Driver:
     def run_case(self, method, n, types, args):
         shell_lists, types_lists = shells_for(self.kind, n, types)
         lists = shell_lists if self.kind == "two_asymm" else [shell_lists[0]]
-        self.runs += 1
-        case = f"{self.kind} n={n} types={types}"
-        try:
-            it, res = self.asm.run(method, lists, args=args(types_lists) if callable(args) else args, kwargs=dict(KW))
-        except AxTypeError as e:
-            rule = "A-TYPE"
-            mm = getattr(e, "mismatch", None)
-            if mm is not None:
-                from ..axtype import shells_of_axis
-                # blocks of different shells meet in one row/column: a block sits at the wrong grid position
-                rule = "A5" if shells_of_axis(mm[0]) != shells_of_axis(mm[1]) else "A4"
-            elif "never assigned" in e.msg or "blocks assigned to" in e.msg:
-                rule = "A5"
-            self.record_fail(rule, method, e.msg, getattr(e, "where", None) or self._where(e), case, e.expected, e.found)
-            return None
-        except Raised as r:
-            self.record_fail("A-TYPE", method, f"the method raises on a valid input: `{ast.unparse(r.node)[:80]}`", None, case)
-            return None
-        return it, res, shell_lists, types_lists, case
+        first = None
+        mk_args = (lambda: args(types_lists)) if callable(args) else args
+        for oracle, out in self.asm.run_paths(method, lists, args=mk_args, kwargs=dict(KW)):
+            self.runs += 1
+            case = f"{self.kind} n={n} types={types}" + (f" angmom={oracle}" if oracle else "")
+            if isinstance(out, AxTypeError):
+                e = out
+                rule = "A-TYPE"
+                mm = getattr(e, "mismatch", None)
+                if mm is not None:
+                    from ..axtype import shells_of_axis
+                    # blocks of different shells meet in one row/column: a block sits at the wrong grid position
+                    rule = "A5" if shells_of_axis(mm[0]) != shells_of_axis(mm[1]) else "A4"
+                elif "never assigned" in e.msg or "blocks assigned to" in e.msg:
+                    rule = "A5"
+                self.record_fail(rule, method, e.msg, getattr(e, "where", None) or self._where(e), case, e.expected, e.found)
+                continue
+            if isinstance(out, Raised):
+                self.record_fail("A-TYPE", method, f"the method raises on a valid input: `{ast.unparse(out.node)[:80]}`", None, case)
+                continue
+            if isinstance(out, Exception):
+                raise out
+            it, res = out
+            if first is None:
+                first = (it, res, shell_lists, types_lists, case)
+            else:
+                self.check_result(method, it, res, shell_lists, types_lists, case)  # further angmom cases: same obligations
+        return first
 
     def _where(self, e):
         n = e.node
@@ -143,7 +152,8 @@ class Driver:
             self.blocks += 1
             ok, msg, desc = check_block(kind, idx, leaf, shell_lists, types_lists, KW)
             if not ok:
-                rule = "A1" if "kwargs" in msg else ("A2/A3" if "operations applied" in msg or "norm" in msg else ("A5" if "reuses" in msg or "comes from kernel" in msg else "A4"))
+                rule = "A1" if "kwargs" in msg else ("A2/A3" if "operations applied" in msg or "norm" in msg else (
+                    "A5" if "reuses" in msg or "comes from kernel" in msg else ("A3-TYPE" if "but that shell is" in msg else "A4")))
                 self.record_fail(rule, method, msg, None, case)
             out[idx] = desc
         # A1: kernel evaluated for the shells in loop order, once per unique block
@@ -287,6 +297,7 @@ def run(repo, R):
     R.rule("A1", "every block is self.construct_array_contraction(shells in loop order, **kwargs), once per unique block")
     R.rule("A2/A3", "per index position exactly one in-place multiply by that shell's norm_cont on its (M,L) axes, then - iff the shell is "
                     "spherical - one tensordot with that shell's own Cartesian->spherical matrix contracting L")
+    R.rule("A3-TYPE", "a basis axis carries spherical components exactly for the shells declared spherical (own transformation applied, never an identity)")
     R.rule("A4", "every basis axis is flattened segment-major as (M[s]*C[s]), trailing kernel axes untouched and last")
     R.rule("A5", "blocks are concatenated over the shells in list order; a reused block has its axes permuted like its grid index, "
                  "by a symmetry of the array kind")
